@@ -11,9 +11,9 @@ cargo build --offline -j 8 --features "vec8 vec16 vec32 vec64 rgb rgba uv uvw" >
 suite=$( (cargo nextest run --workspace --no-fail-fast --tool-config-file pb:/w/lib/nextest.toml --profile pb --test-threads 8 --offline 2>&1 || true) | grep -E "^\s*Summary|tests run" | tail -1)
 echo "suite with patch: $suite"
 mkdir -p tests; cp "$out/demo_$X.rs" tests/
-with=$(cargo test --offline -j 8 --test demo_$X 2>&1 | grep -E "^test result" | tail -1)
+with=$(cargo test --offline -j 8 --features "vec8 vec16 vec32 vec64 rgb rgba uv uvw" --test demo_$X 2>&1 | grep -E "^test result" | tail -1)
 echo "demo with patch: $with"
 git checkout -q -- src
-without=$(cargo test --offline -j 8 --test demo_$X 2>&1 | grep -E "^test result" | tail -1)
+without=$(cargo test --offline -j 8 --features "vec8 vec16 vec32 vec64 rgb rgba uv uvw" --test demo_$X 2>&1 | grep -E "^test result" | tail -1)
 echo "demo without patch: $without"
 rm -f tests/demo_$X.rs
